@@ -145,6 +145,29 @@ def run(res, replay=None, visit_only=False):
                         else:
                             start = str(trng.below(max(1, len(img))))
                         script.append("cur %s %s %s" % (path, start, " ".join(seq)))
+            crexp = {}
+            if not visit_only:
+                # cursor_range / cursor_subrange(pos[, count]) over the groups of the root and of the first entries
+                for (path, lv, val) in level_views(s, m, v)[:4]:
+                    for gi, g in enumerate(lv.groups):
+                        n = len(val["groups"][gi]["entries"])
+                        base_idx = len(script)
+                        script.append("ginfo %s %d" % (path, gi))
+                        script.append("gsize %s %d" % (path, gi))
+                        for i in range(n):
+                            sub = ("%d:%d" % (gi, i)) if path == "." else (path + "/%d:%d" % (gi, i))
+                            script.append("epos %s" % sub)
+                        reqs = [("r", None, None)]
+                        for pos in sorted({0, n - 1, trng.below(max(1, n))}):
+                            if 0 <= pos < n:
+                                reqs.append(("s", pos, None))
+                                for cnt in sorted({0, 1, n - pos}):
+                                    reqs.append(("s", pos, cnt))
+                        for (mode, pos, cnt) in reqs:
+                            line = "crange %s %d %s" % (path, gi, mode) + ("" if pos is None else " %d" % pos) + ("" if cnt is None else " %d" % cnt)
+                            script.append(line)
+                            crexp[len(script) - 1] = (base_idx, n, pos if pos is not None else 0,
+                                                      (n - (pos or 0)) if cnt is None else cnt)
             if visit_only:
                 nev = len(expected_names(s, m, v)) + sum(1 for _ in level_views(s, m, v)) - 1
                 ks = list(range(0, nev + 2)) if nev <= 30 else sorted(set([0, 1, 2, nev - 1, nev, nev + 1] + [trng.below(nev) for _ in range(24)]))
@@ -168,8 +191,8 @@ def run(res, replay=None, visit_only=False):
                         script.append(op)
                         script.append(" ".join([{"getf": "getft", "getb": "getbt", "ginfo": "ginfot", "dinfo": "dinfot"}[w[0]]] + w[1:]))
             names = expected_names(s, m, v)
-            jobs.append((m, v, buf, script, len(img), names, len(mlines), len(ilines), cvexp))
-            mlines += [model_msg_line(s, m), "buf " + hx(buf)] + [x if not x.startswith("cvisit") else "use x" for x in script]
+            jobs.append((m, v, buf, script, len(img), names, len(mlines), len(ilines), cvexp, crexp))
+            mlines += [model_msg_line(s, m), "buf " + hx(buf)] + [x if not x.startswith(("cvisit", "crange")) else "use x" for x in script]
             ilines += ["use " + m.name, "buf " + hx(buf)] + script
         mout = model.run(mlines)
         for (cxx, std), exe in mc.exes.items():
@@ -179,7 +202,7 @@ def run(res, replay=None, visit_only=False):
                 res.violation("driver-crash", "generated driver crashed (%s %s): %s" % (cxx, std, err[-300:]),
                               {"schema_xml": mc.xml, "stderr": err[-2000:]})
                 continue
-            for (m, v, buf, script, imglen, names, mo, io, cvexp) in jobs:
+            for (m, v, buf, script, imglen, names, mo, io, cvexp, crexp) in jobs:
                 for j, op in enumerate(script):
                     if j == 0:
                         continue
@@ -188,7 +211,18 @@ def run(res, replay=None, visit_only=False):
                     nontriv = (len(op.split()) > 4) if op.startswith("cur") else bool(names)
                     res.count((s.package, m.name, hx(buf)[:40], op, cxx, std), nontriv)
                     bad = None
-                    if op.startswith("cvisit"):
+                    if op.startswith("crange"):
+                        bi, n, pos, cnt = crexp[j]
+                        gi_ = dict(x.split("=") for x in mout[mo + 2 + bi].split())
+                        gend = int(gi_["pos"]) + int(mout[mo + 2 + bi + 1])
+                        eaddr = [int(mout[mo + 2 + bi + 2 + i].split("=")[1]) for i in range(n)]
+                        fin = eaddr[pos + cnt] if pos + cnt < n else gend
+                        if cnt == 0:
+                            fin = eaddr[pos] if pos < n else gend
+                        want = "n=%d " % cnt + "".join("E@%d " % a_ for a_ in eaddr[pos:pos + cnt]) + "c=%d" % fin
+                        if b2 != want:
+                            bad = ("cursor-range", "`%s`: entries/cursor `%s`, expected `%s` (random-access entry addresses)" % (op, b2, want))
+                    elif op.startswith("cvisit"):
                         if b2 != cvexp[j]:
                             bad = ("composite-visit", "`%s`: visit_children of the composite reported members `%s`, the schema's "
                                    "non-constant members are `%s`" % (op, b2, cvexp[j]))
